@@ -558,6 +558,10 @@ def gen_cases(rng, tier):
         cases.append({'kind': 'op', 'op': op, 'a': a, 'b': b, 'how': rng.choice(['ij', 'oj']), 'method': rng.choice([None, 'ffill']), 'columns': 'ij'})
         xs = [a, {'S': [[t, gen_val(rng, 'twelve', 0.3)] for t, _ in b['S']]}]
         cases.append({'kind': 'agg', 'agg': rng.choice(['sum', 'count']), 'xs': [xs[0] if op != 'div' else xs[1], xs[1]], 'how': 'oj', 'method': None, 'columns': 'oj'})
+    for _ in range(30 if q else 300):                     # df_sum / df_mean / df_count of scalars only (docstring example df_sum(a = 5, b = nan))
+        g = rng.choice(['sum', 'mean', 'count'])
+        xs = [{'N': gen_val(rng, 'twelve' if g == 'mean' else 'int', 0.4)} for _ in range(rng.choice([1, 2, 3, 4]))]
+        cases.append({'kind': 'agg', 'agg': g, 'xs': xs, 'how': 'oj', 'method': None, 'columns': 'oj'})
     for _ in range(60 if q else 800):                     # df_std (in observe_at; not an integer quantity: oracle only, 1e-9)
         n = rng.choice([1, 2, 3, 4])
         xs = gen_operands(rng, n, ['int'] * n, rng.choice(['none', 'none', 'all']))
